@@ -89,22 +89,25 @@ def gen_capacity_cases(rng, tier):
     def filler(n, ty):
         return [(("u", "ext", "a%d" % k), ty) for k in range(n)]
     # n double records: 88 n <= 520232  <=>  n <= 5911
-    for n in (5910, 5911, 5912, 6000):
+    for n in ((5911, 5912, 6000) if tier == "quick" else (5910, 5911, 5912, 6000)):
         p = xyz + filler(n - 3, "D")
-        cases.append(("capacity:doubles-%d" % n, seq_pc(rng, p, 2 if n <= 5911 else 0)))
+        cases.append(("capacity:doubles-%d" % n, seq_pc(rng, p, (1 if tier == "quick" else 2) if n <= 5911 else 0)))
     # one-bit records: acceptance up to 20809, the subtraction underflows from 21677
     for n in (20808, 20809, 20810, 21675, 21676, 21677, 21678, 30000):
         p = xyz + filler(n - 3, "I/0/1")
         # three doubles add 192 bits: boundary moves; both sides must simply agree and not panic
         cases.append(("capacity:bits-%d" % n, seq_pc(rng, p, 1 if n < 20700 else 0)))
-    for n in (21000, 21676, 21677, 25000):
+    for n in ((21676, 21677, 25000) if tier == "quick" else (21000, 21676, 21677, 25000)):
         p = [("x", "I/0/1"), ("y", "I/0/1"), ("z", "I/0/1")] + filler(n - 3, "I/7/7")
         cases.append(("capacity:zero-width-%d" % n, seq_pc(rng, p, 2 if n < 21600 else 0)))
     p = [("x", "I/3/3"), ("y", "I/3/3"), ("z", "I/3/3")] + filler(40, "I/7/7")
     cases.append(("capacity:all-zero-width", seq_pc(rng, p, 2)))
     # wide prototype accepted with capacity 1: every point is its own packet
-    p = xyz + filler(5908, "D")
-    cases.append(("capacity:one-point-packets", seq_pc(rng, p, 3)))
+    if tier != "quick":
+        p = xyz + filler(5908, "D")
+        cases.append(("capacity:one-point-packets", seq_pc(rng, p, 3)))
+    p = xyz + filler(2000, "D")
+    cases.append(("capacity:two-point-packets", seq_pc(rng, p, 5)))
     return cases
 
 
@@ -238,6 +241,12 @@ def gen_order_cases(rng, tier):
         proto = xyz + [(("u", ns, "attr"), "I/0/9")]
         calls += [("PC", "pc", proto), ("PT", [ONE, ONE, TWO, "i4"]), ("PFIN",), ("PDROP",)] + F
         cases.append(("order:extension-name", calls))
+    for url in wapi.RESERVED_URLS + ("http://www.w3.org/XML/1998/namespace/", "", "http://a?b=1&c=<2>\"'"):
+        cases.append(("order:extension-url", N + [("EXT", "e1", url), ("EXT", "e2", url), ("PC", "pc", xyz + [(("u", "e1", "a"), "D"), (("u", "e2", "b"), "D")]),
+                                                   ("PT", [ONE, ONE, TWO, HALF, ONE]), ("PFIN",), ("PDROP",)] + F))
+    for nm in ("9a", "-a", "a9", "_a", "a-", "0", "-"):
+        cases.append(("order:extension-attr-start", N + [("EXT", "ext", "http://u"), ("PC", "pc", xyz + [(("u", "ext", nm), "I/0/9")]),
+                                                           ("PT", [ONE, ONE, TWO, "i4"]), ("PFIN",), ("PDROP",)] + F))
     cases.append(("order:extension-after-use", N + [("PC", "pc", xyz + [(("u", "late", "a"), "D")]), ("PDROP",), ("EXT", "late", "u")] + pc(1) + F))
     # setters: complete and incomplete limits, None, override then reset
     proto = xyz + [("in", "I/0/255"), ("r", "I/0/255"), ("g", "I/0/255"), ("b", "I/0/255")]
